@@ -31,10 +31,11 @@ def make_chooser(seed, ctx):
         p = np.real(np.asarray(p, dtype=np.complex128)).copy()
         p[~np.isfinite(p)] = 0.0
         p[p < 0] = 0.0
-        supp = np.where(p > 1e-12)[0]
+        tot = p.sum()
+        # forced outcomes stay where post-selection does not amplify rounding noise (oracles.SUPPORT)
+        supp = np.where(p > max(1e-12, 1e-6 * tot))[0]
         if len(supp) == 0:
             return 0
-        tot = p.sum()
         if len(supp) == 1 or p.max() / tot > 1 - 1e-9:
             return int(np.argmax(p))
         follow = ctx.get("follow")
